@@ -233,7 +233,7 @@ def rand_args(rng, multi=None):
     label = None
     if rng.random() < 0.6:
         if multi is None:
-            label = rng.choice(["x", "my protein", "a-syn", "P1 (wt)", "\u03b1-synuclein \u0394NAC", "A\u03b242", "prot\u00e9ine",
+            label = rng.choice(["x", "my protein", "a-syn", "P1 (wt)", "GST$1", r"$\Delta$N", "tau_{441} ^ #2 & 50%", "\u03b1-synuclein \u0394NAC", "A\u03b242", "prot\u00e9ine",
                                 "construct 17 of the second library, C-terminal truncation at residue 140, His-tag removed, batch 2021-03 (label longer than the axis)"])
         else:
             label = ["s%d" % i for i in range(multi)]
@@ -252,7 +252,7 @@ def rand_args(rng, multi=None):
     if rng.random() < 0.5:
         kw["title"] = rng.choice(["T", "My title", "Diagram", "", "\u03b1-synuclein vs. A\u03b2", "Diagramme d'\u00e9tats",
                                   "A rather long title that describes the forty-two constructs of this study in quite some detail",
-                                  "two lines:\nwild type and mutants", "tab\tseparated title"])
+                                  "two lines:\nwild type and mutants", "tab\tseparated title", "cost: 5$ per residue", r"$\kappa$ = 0.31", "100% [draft] {v2} #3 & co_1^2"])
     if rng.random() < 0.4:
         kw["legendOn"] = rng.choice([True, False])
     if rng.random() < 0.5:
